@@ -117,9 +117,6 @@ func run(c Case) *pbt.Fail {
 			cur = next
 			refreshed = true
 		case "restore":
-			if c.Scheme == proto.SchemeDoerner {
-				continue // Doerner configurations cannot be restored (recorded under C15)
-			}
 			r, err := cur.Restored()
 			if err != nil {
 				return pbt.Failf("restore-error:"+c.Scheme, err.Error())
